@@ -540,3 +540,27 @@ Example C08_eq_iff_F23 :
   /\ y_eq (y_new "'a.b'") "a\.b" = Ok true /\ y_eq (y_new "/a.b") """a.b""" = Ok true
   /\ y_eq (y_new "a.b") "/a.b" = Ok false /\ y_eq (y_new "a\.b") "a.b" = Ok false.
 Proof. vm_compute. repeat split; reflexivity. Qed.
+
+(* ---- the guard "the canonical dot text is not blank" (round gapA: decision).
+   A path whose ONLY segment is a key made of tabs / line feeds (reachable
+   through quote demarcation: "<tab>" in quotes) has the canonical dot text
+   <tab>, which YAMLPath() takes for the empty path (the `original` setter
+   tests str.strip()).  The printers back-slash the blank " " and no other
+   white space.  The property's quantifier draws key text from "letters,
+   digits and every escapable special character": tabs and line feeds are not
+   among them, so this is a restriction of the property's domain, not a C08
+   finding (the same root cause is the listed C02 finding F26, whose witness is
+   the lone-tab key).  In forward-slash notation, and as soon as the path has
+   another segment, the text is not blank and the clauses hold. ---- *)
+Example C08_canonical_blank_key :
+  let tab := String (ch 9) "" in
+  let quoted := mkstyle (Some DQ) false false "/"%char false in
+  let l := [((Some TKey, AStr tab), quoted)] in
+  let l2 := [((Some TKey, AStr "a"), plain_style); ((Some TKey, AStr tab), quoted)] in
+  wfc Dot l = true /\ dot_text_ok Dot (render_ref Dot l) = true
+  /\ canon Dot (render_ref Dot l) = Ok tab /\ nonblank tab = false
+  /\ parse (Forced Dot) true tab = Ok []
+  /\ canon Slash (render_ref Dot l) = Ok (String "/"%char tab)
+  /\ parse (Forced Slash) true (String "/"%char tab) = Ok (segs_of l)
+  /\ wfc Dot l2 = true /\ (do c <- canon Dot (render_ref Dot l2); parse (Forced Dot) true c) = Ok (segs_of l2).
+Proof. vm_compute. repeat split; reflexivity. Qed.
